@@ -386,6 +386,7 @@ def plain_paths(ns, roots, maxlen):
     out = []
     for r in roots:
         frontier = [(r, ns[r])]
+        out += frontier         # the namespace entry itself: `obj.` must offer dir(obj)
         for _ in range(maxlen):
             nxt = []
             for e, o in frontier:
@@ -746,7 +747,6 @@ def _levels(tier):
     maxlen = 3 if tier == 'quick' else 4
     cont = [{'family': 'cont', 'variant': v, 'tier': tier, 'roots': [r], 'maxlen': maxlen}
             for v in fe for r in ['d2', 'l2', 't2', 'inst', 'dynst', 'sn']]
-    levels.append(('containers(plain paths<=%d) x {file,exec}' % maxlen, cont))
     levels.append(('builtin-subclasses x {file,exec}',
                    [{'family': 'sub', 'variant': v, 'tier': tier} for v in fe]))
     side = ['obj', 'C', 'box0', 'box1']
@@ -757,6 +757,7 @@ def _levels(tier):
         levels.append(('descriptor singles shadowed in the instance dict x {file,exec}',
                        _shape_tasks(tier, descr, fe, shadow=True, roots=['obj'],
                                     plain_roots=['obj'])))
+        levels.append(('containers(plain paths<=%d) x {file,exec}' % maxlen, cont))
         levels.append(('singles x {dyn}: relevant expressions, own root',
                        _shape_tasks(tier, singles, ['dyn'], other='skip')))
         levels.append(('pairs, same placement x {exec}: relevant expressions, own root, complete',
@@ -768,6 +769,7 @@ def _levels(tier):
                        _shape_tasks(tier, singles, fe, full=True, battery='B',
                                     roots=allroots, side_everywhere=True,
                                     plain_roots=['obj', 'C', 'box', 'hold'], plain_len=2)))
+        levels.append(('containers(plain paths<=%d) x {file,exec}' % maxlen, cont))
         levels.append(('singles x {dyn}: relevant expressions, battery on heads',
                        _shape_tasks(tier, singles, ['dyn'], battery='B')))
         levels.append(('singles shadowed in the instance dict x {file,exec}',
